@@ -991,6 +991,8 @@ func runGCCase(r *vrep.Report, cs gcCase) {
 		pan any
 	}
 	done := make(chan res, 1)
+	var panicMu sync.Mutex
+	handlerPanic := ""
 	go func() {
 		var rs res
 		defer func() {
@@ -1006,7 +1008,16 @@ func runGCCase(r *vrep.Report, cs gcCase) {
 			rs.err = tikv.StoreProbe{KVStore: gc.Store}.GCResolveLockPhase(bg, sp, cs.Conc)
 		default:
 			lr := tikv.NewRegionLockResolver("verif-c14", gc.Store)
-			h := func(ctx context.Context, kr kv.KeyRange) (rangetask.TaskStat, error) {
+			h := func(ctx context.Context, kr kv.KeyRange) (st rangetask.TaskStat, err error) {
+				// runs on a worker goroutine of the range task: a panic of the resolver would end the process
+				defer func() {
+					if p := recover(); p != nil {
+						panicMu.Lock()
+						handlerPanic = fmt.Sprint(p)
+						panicMu.Unlock()
+						err = fmt.Errorf("verif: resolver panicked: %v", p)
+					}
+				}()
 				return tikv.ResolveLocksForRange(ctx, lr, sp, kr.StartKey, kr.EndKey, tikv.NewGcResolveLockMaxBackoffer, uint32(cs.Limit))
 			}
 			runner := rangetask.NewRangeTaskRunner("verif-c14-resolve", gc.Store, cs.Conc, h)
@@ -1051,6 +1062,11 @@ func runGCCase(r *vrep.Report, cs gcCase) {
 		}
 		return m
 	}
+	panicMu.Lock()
+	if handlerPanic != "" && out.pan == nil {
+		out.pan = handlerPanic
+	}
+	panicMu.Unlock()
 	if out.pan != nil {
 		r.Violate("gc:panic:"+cs.Mode, fmt.Sprintf("%s: GC panicked: %v", cs, out.pan), detail(nil))
 		return
